@@ -41,6 +41,8 @@ def for_case(prop, case):
                 lines.append(f"last = p.tokenize({op[1]!r}); print('tokenize', {op[1]!r}, '->', [(t.type, t.value) for t in last])")
             elif op[0] == "clear":
                 lines.append("p.clear_cache()")
+            elif op[0] == "new":
+                lines.append("p = ExpressionParser()")
             elif op[0] == "consume":
                 lines.append("while last: last.pop(0)")
             elif op[0] == "reverse":
